@@ -360,20 +360,30 @@ pub fn floor_program(rng: &mut Rng, slot: u32) -> Vec<Sym> {
         debug_assert!(ok);
         prog.push(s);
     };
-    // history large enough for one slot above the target's first-bit opposite
-    let (t_lo, _) = slot_range(slot);
+    // history large enough for the target slot and for every "opposite" slot used to
+    // train the distance-slot tree (same prefix, opposite bit, zeros below)
     let need = {
-        // opposite of the leading bit: if the target's top bit is 0 we need slot 32
-        let top_is_zero = slot & 0x20 == 0;
-        let a = if top_is_zero { slot_range(32).0 + 2 } else { 0 };
-        (t_lo + 2).max(a) as usize + 4096
+        let mut m = slot_range(slot).0 + 2;
+        for i in 0..6u32 {
+            let bit = (slot >> (5 - i)) & 1;
+            let prefix = slot >> (6 - i) << (6 - i);
+            let opp = prefix | ((bit ^ 1) << (5 - i));
+            m = m.max(slot_range(opp).0 + 2);
+        }
+        m as usize + 4096
     };
     for _ in 0..64 {
         push(Sym::Lit(rng.byte()), &mut it, &mut prog);
     }
+    let mut k = 0;
     while it.hist.len() < need {
-        let d = rng.range(1, it.hist.len().min(64) as u64) as u32;
-        push(Sym::Match { dist: d, len: 273 }, &mut it, &mut prog);
+        if k < 8 || k % 97 == 0 {
+            let d = rng.range(1, it.hist.len().min(64) as u64) as u32;
+            push(Sym::Match { dist: d, len: 273 }, &mut it, &mut prog);
+        } else {
+            push(Sym::Rep { idx: 0, len: 273 }, &mut it, &mut prog);
+        }
+        k += 1;
     }
     // A: length coder high tree towards "not 255", choice/choice2 towards 1
     // (deepest tree node first: a later, shallower round leaves it untouched)
